@@ -1,5 +1,6 @@
 import PyYetiVerif.Props.C05
 import PyYetiVerif.Props.C05Gen
+import PyYetiVerif.Props.C05Struct
 #print axioms PyYetiVerif.C05.count_total
 #print axioms PyYetiVerif.C05.rows_total
 #print axioms PyYetiVerif.C05.cycle_values
@@ -24,3 +25,13 @@ import PyYetiVerif.Props.C05Gen
 #print axioms PyYetiVerif.C05.entry_result_shape
 #print axioms PyYetiVerif.C05.wrapper_is_relabel
 #print axioms PyYetiVerif.C05.call_history_irrelevant
+#print axioms PyYetiVerif.C05.rows_in_closing_order
+#print axioms PyYetiVerif.C05.full_cycles_laminar
+#print axioms PyYetiVerif.C05.starts_stops_unique
+#print axioms PyYetiVerif.C05.residual_half_cycles_chain
+#print axioms PyYetiVerif.C05.duplicate_first
+#print axioms PyYetiVerif.C05.range_le_overall
+#print axioms PyYetiVerif.C05.duplicate_first_field
+#print axioms PyYetiVerif.C05.plateau_erases_point
+#print axioms PyYetiVerif.C05.duplicate_insertion_not_harmless
+#print axioms PyYetiVerif.C05.monotone_points_are_counted
